@@ -923,8 +923,88 @@ fn tree_hash(t: &T, memo: &mut Vec<(Vec<u8>, T)>) -> Vec<u8> {
     h
 }
 
+/// Canonical text of an s-expression text: whitespace-insensitive and insensitive to how a dotted tail is
+/// written ("(a . (b c))" and "(a b c)" are the same value). Independent of the repository's reader.
 fn norm_ws(s: &str) -> String {
-    s.replace('(', " ( ").replace(')', " ) ").split_whitespace().collect::<Vec<_>>().join(" ")
+    #[derive(Debug)]
+    enum N {
+        Atom(String),
+        Nil,
+        Cons(Box<N>, Box<N>),
+    }
+    let toks: Vec<String> = s.replace('(', " ( ").replace(')', " ) ").split_whitespace().map(|x| x.to_string()).collect();
+    fn expr(t: &[String], i: &mut usize) -> Option<N> {
+        let tok = t.get(*i)?;
+        *i += 1;
+        if tok == "(" {
+            list(t, i)
+        } else if tok == ")" || tok == "." {
+            None
+        } else {
+            Some(N::Atom(tok.clone()))
+        }
+    }
+    fn list(t: &[String], i: &mut usize) -> Option<N> {
+        match t.get(*i)?.as_str() {
+            ")" => {
+                *i += 1;
+                Some(N::Nil)
+            }
+            "." => {
+                *i += 1;
+                let tail = expr(t, i)?;
+                if t.get(*i)? != ")" {
+                    return None;
+                }
+                *i += 1;
+                Some(tail)
+            }
+            _ => {
+                let head = expr(t, i)?;
+                let rest = list(t, i)?;
+                Some(N::Cons(Box::new(head), Box::new(rest)))
+            }
+        }
+    }
+    fn show(n: &N, out: &mut String) {
+        match n {
+            N::Atom(a) => out.push_str(a),
+            N::Nil => out.push_str("()"),
+            N::Cons(_, _) => {
+                out.push('(');
+                let mut cur = n;
+                let mut first = true;
+                loop {
+                    match cur {
+                        N::Cons(a, b) => {
+                            if !first {
+                                out.push(' ');
+                            }
+                            show(a, out);
+                            first = false;
+                            cur = b;
+                        }
+                        N::Nil => break,
+                        N::Atom(a) => {
+                            out.push_str(" . ");
+                            out.push_str(a);
+                            break;
+                        }
+                    }
+                }
+                out.push(')');
+            }
+        }
+    }
+    let mut i = 0;
+    match expr(&toks, &mut i) {
+        Some(n) if i == toks.len() => {
+            let mut o = String::new();
+            show(&n, &mut o);
+            o
+        }
+        _ => toks.join(" "),
+    }
 }
 
 /// (a (q . code) (c (q . left_env) 1)) -> left_env
@@ -1091,7 +1171,15 @@ fn check_c13_case(st: &mut Stats, case: &Case, sub: &str) {
                             }
                             Out::Limit => {}
                             other => {
-                                let cls = if pat_has_at(params) { "function/@-capture-in-parameter-list".to_string() } else { format!("wrong-code/{}", sub) };
+                                let leaks = sigil == "*standard-cl-22*" && (leaks_a_name(&code, &all_names(&case.prog)) || matches!(&other, Out::Val(v) if leaks_a_name(v, &all_names(&case.prog))));
+                                let cls = if pat_has_at(params) {
+                                    "function/@-capture-in-parameter-list".to_string()
+                                } else if leaks {
+                                    // C01's finding F27: the recorded code is the miscompiled code
+                                    "cl22-frontend-optimiser/variable-replaced-by-its-name".to_string()
+                                } else {
+                                    format!("wrong-code/{}", sub)
+                                };
                                 st.violation(&cls, format!("{} [{}]: code under the entry for {} on {} gives {}, the function means {}", text, optname, name, argv.short(), other.short(), want.short()), text.len(), replay.clone());
                             }
                         }
